@@ -171,7 +171,10 @@ GLOBAL_SUMS = [("node_total_old_gen_gc_count", "old_gc_count"), ("indexing_throt
 def _challenge():
     t1 = track.Task("t1", track.Operation("op-t1", "bulk", params={}))
     t2 = track.Task("t2", track.Operation("op-t2", "search", params={}))
-    ch = track.Challenge("c", schedule=[t1, t2], meta_data={"challenge-meta": 1})
+    # a named task and a later task that takes its name from the same, shared operation
+    shared = track.Operation("shared", "search", params={})
+    t3, t4 = track.Task("warm-shared", shared), track.Task("shared", shared)
+    ch = track.Challenge("c", schedule=[t1, t2, t3, t4], meta_data={"challenge-meta": 1})
     tr = track.Track("tr", challenges=[ch], meta_data={"track-meta": "x"})
     return tr, ch
 
@@ -198,6 +201,9 @@ def results(sl):
         st.docs.append(_doc("throughput", "t1", "warmup", v, True, "bulk", unit="docs/s"))
     for v in thr_n:
         st.docs.append(_doc("throughput", "t1", "normal", v, True, "bulk", unit="docs/s"))
+    shared_vals = {"warm-shared": fresh_real("service_time_warm_shared", 0), "shared": fresh_real("service_time_shared", 0)}
+    for task_name, v in shared_vals.items():
+        st.docs.append(_doc("service_time", task_name, "normal", v, True, "search"))
     gvals = {}
     for name, attr in GLOBAL_SUMS:
         v = fresh_real("g_" + attr, 0)
@@ -253,6 +259,12 @@ def results(sl):
         res2 = metrics.GlobalStats(back.results)
         m2 = res2.metrics("t1")
         observe("tasks survive storage", res2.tasks() == res.tasks())
+        for r_ in (res, res2):
+            observe("metrics(task) returns the record of that task, also when an earlier task runs an operation of that name",
+                    all(r_.metrics(name) is not None and r_.metrics(name)["task"] == name for name in ("t1", "t2", "warm-shared", "shared")))
+            for task_name, v in shared_vals.items():
+                mm = r_.metrics(task_name)
+                observe("each task reports its own samples", mm is not None and "100_0" in mm["service_time"] and mm["service_time"]["100_0"] == v)
         observe("per-task metrics survive storage", m2 is not None and _same(jsonish(m1), m2))
         for attr, v in gvals.items():
             observe("global metric %s survives storage" % attr, getattr(res2, attr) is not None and getattr(res2, attr) == v)
